@@ -1185,10 +1185,16 @@ def oracle_c08(sim, sc, st):
                 continue
             if not outs:
                 # may legitimately still wait (does not fit / blocked);
-                # C04 decides those.  Lost bystanders: granted but vanished
+                # C04 decides those.  Lost bystanders: granted but vanished,
+                # or handed to the scheduler and neither granted nor waiting
                 if uid in L['grants'] and uid not in L['held']:
                     v(sim, 'C08', 'bystander_lost', site, uid,
                       {'grants': L['grants'].get(uid)}, len(sim.events))
+                elif uid in L['handed'] and uid not in L['grants'] and \
+                        uid not in waitpool_uids(st.get('child')) and \
+                        st['cancel_reqs']:
+                    v(sim, 'C08', 'bystander_lost', 'scheduler', uid,
+                      {'handed': True, 'waiting': False}, len(sim.events))
                 continue
             want = None
             if uid in L['grants']:
@@ -1279,3 +1285,13 @@ def oracle_c08_sched(sim, sc, st):
                 if f.get('state') == rps.CANCELED:
                     v(sim, 'C08', 'bystander_canceled', 'scheduler', uid, {},
                       len(sim.events))
+    L = st['ledger']
+    if st['cancel_reqs']:
+        for uid in st['order']:
+            d = st['tasks'][uid]['description']
+            if uid in named or d.get('ranks', 1) <= 0:
+                continue
+            if uid in L['handed'] and uid not in L['grants'] and \
+                    uid not in pool and uid not in st['finals']:
+                v(sim, 'C08', 'bystander_lost', 'scheduler', uid,
+                  {'handed': True, 'waiting': False}, len(sim.events))
